@@ -330,7 +330,7 @@ def valid_case(case):
             if not o.get_sql(prog.sql_context(case["program"]["cls"])):
                 return False
         return case["old"] in OLD_SPECS and case["new"] in NEW_SPECS
-    except Exception:
+    except (Exception, HarnessError):
         return False
 
 
